@@ -1,4 +1,4 @@
-import Rawr.Proofs.MakeMoveAbsF
+import Rawr.Proofs.MakeMoveAbsH
 import Rawr.Props.C04
 /-! # C02  Making a move yields exactly the successor position prescribed by the rules
 
@@ -19,7 +19,7 @@ en passant, promotions with and without capture (`Proofs/MakeMoveAbsB..D`: `nc_r
 square (`castleK_result`, `castleQ_result`, `c_view`, `c_refines` in `MakeMoveAbsB,C,E`); the castling-right
 bookkeeping is `lost_us` / `lost_them` / `c_them_keep`; the final `flip` is `abs_flip` (`MakeMoveAbsA`). -/
 namespace Rawr
-open Position Spec ZH MM
+open Position Spec ZH MM SV
 
 /-! ## (1) refinement -/
 
@@ -93,6 +93,153 @@ theorem C02_null (p : Position) (hV : ValidPos p = true) :
   have h := abs_flip { p with hash := p.makenull.hash } (fun x => disj_bit hC x)
   exact ⟨fun s hs => h.board s hs, h.turn, h.wK, h.wQ, h.bK, h.bQ, rfl, rfl, h.full⟩
 
+/-! ## (4) validity is preserved
+
+Legality by the rules is `decodeMove p m ∈ Spec.legalMoves (abs p)`. With it the pawn geometry need not be
+assumed (`C02_shape2_of_legal`), and `Spec.Valid` of the result follows from a theorem about the
+specification alone (`C02_spec_valid_preserved`: every legal move of a valid position leads to a valid
+position — `Proofs/MakeMoveAbsV1..V5`, no engine model involved). -/
+
+/-- `MoveShape` and legality by the rules give the pawn geometry. -/
+theorem C02_shape2_of_legal (p : Position) (m : Mv) (hV : ValidPos p = true) (hs : MoveShape p m = true)
+    (hL : decodeMove p m ∈ Spec.legalMoves (abs p)) : MoveShape2 p m = true := shape2_of_legal hV hs hL
+
+/-- (1) again, for a shaped legal move, as an *equation* between absolute positions (off the 64 squares
+both boards are empty). -/
+theorem C02_makemove_eq (p : Position) (m : Mv) (q : Position) (u : Bool) (hV : ValidPos p = true)
+    (hs : MoveShape p m = true) (hL : decodeMove p m ∈ Spec.legalMoves (abs p))
+    (h : p.makemove m u = some q) : abs q = Spec.apply (abs p) (decodeMove p m) :=
+  abs_eq_apply hV (shape2_of_legal hV hs hL) h
+
+/-- V.1: the eight boards of the result are consistent (no legality needed). -/
+theorem C02_consistent (p : Position) (m : Mv) (q : Position) (u : Bool) (hV : ValidPos p = true)
+    (hs : MoveShape p m = true) (h : p.makemove m u = some q) : Consistent q = true := by
+  obtain ⟨_, q', _, hq, so⟩ := makemove_out hV hs u
+  rw [hq] at h
+  cases h
+  exact so.consistent
+
+/-- the castle files travel with the sides (and `frc` stays). -/
+theorem C02_castle_files (p : Position) (m : Mv) (q : Position) (u : Bool) (hV : ValidPos p = true)
+    (hs : MoveShape p m = true) (h : p.makemove m u = some q) :
+    q.cf0 = p.cf2 ∧ q.cf1 = p.cf3 ∧ q.cf2 = p.cf0 ∧ q.cf3 = p.cf1 ∧ q.frc = p.frc := by
+  obtain ⟨_, q', _, hq, so⟩ := makemove_out hV hs u
+  rw [hq] at h
+  cases h
+  exact so.cf
+
+/-- the specification alone: a legal move of a valid position leads to a valid position. -/
+theorem C02_spec_valid_preserved (a : APos) (mv : Move) (hv : Spec.Valid a = true)
+    (hl : mv ∈ Spec.legalMoves a) : Spec.Valid (Spec.apply a mv) = true := valid_apply hv hl
+
+/-- V.2–V.7 hold of the result. -/
+theorem C02_spec_valid (p : Position) (m : Mv) (q : Position) (u : Bool) (hV : ValidPos p = true)
+    (hs : MoveShape p m = true) (hL : decodeMove p m ∈ Spec.legalMoves (abs p))
+    (h : p.makemove m u = some q) : Spec.Valid (abs q) = true := by
+  rw [C02_makemove_eq p m q u hV hs hL h]
+  exact valid_apply (valid_unpack hV).2.1 hL
+
+section clauses
+variable (p : Position) (m : Mv) (q : Position) (u : Bool) (hV : ValidPos p = true)
+  (hs : MoveShape p m = true) (hL : decodeMove p m ∈ Spec.legalMoves (abs p)) (h : p.makemove m u = some q)
+include hV hs hL h
+
+/-- the side that just moved is not in check. -/
+theorem C02_mover_not_in_check : inCheck (abs q).board (!(abs q).whiteToMove) = false :=
+  ((valid_iff _).mp (C02_spec_valid p m q u hV hs hL h)).notInCheck
+
+/-- exactly one king per colour. -/
+theorem C02_one_king_each :
+    countPieces (abs q).board (fun pc => pc == ⟨true, .king⟩) = 1 ∧
+    countPieces (abs q).board (fun pc => pc == ⟨false, .king⟩) = 1 := by
+  have v := (valid_iff _).mp (C02_spec_valid p m q u hV hs hL h)
+  exact ⟨by simpa using (king_clause _ true).mpr v.kw, by simpa using (king_clause _ false).mpr v.kb⟩
+
+/-- no pawn stands on a back rank. -/
+theorem C02_no_back_rank_pawns (s : Nat) (hs64 : s < 64) (pc : Piece) (hpc : (abs q).board s = some pc)
+    (hk : pc.kind = .pawn) : rank s ≠ 0 ∧ rank s ≠ 7 :=
+  ((valid_iff _).mp (C02_spec_valid p m q u hV hs hL h)).pawns s hs64 pc hpc hk
+
+/-- every remaining castling right is backed: its rook on its square, the king on the home rank on the
+proper side of it (`Spec.Valid` clause 5). -/
+theorem C02_rights_backed (w ks : Bool) (f : Nat) (hr : right (abs q) w ks = some f) :
+    f < 8 ∧ (abs q).board (sq f (homeRank w)) = some ⟨w, .rook⟩ ∧
+    ∃ k, kingSquares (abs q).board w = [k] ∧ rank k = homeRank w ∧
+      (if ks = true then file k < (f : Int) else (f : Int) < file k) :=
+  ((valid_iff _).mp (C02_spec_valid p m q u hV hs hL h)).rights w ks f hr
+
+/-- an en-passant target lies on the mover's third / sixth rank, is empty, and the pushed pawn stands in
+front of it (`Spec.Valid` clause 6). -/
+theorem C02_ep_target (e : Nat) (he : (abs q).ep = some e) :
+    rank e = (if (abs q).whiteToMove = true then 5 else 2) ∧ (abs q).board e = none ∧
+    (abs q).board (sq (file e) (if (abs q).whiteToMove = true then 4 else 3)) =
+      some ⟨!(abs q).whiteToMove, .pawn⟩ :=
+  ((valid_iff _).mp (C02_spec_valid p m q u hV hs hL h)).ep e he
+
+/-- counters: the clock is 0 or one more, the move number the same or one more; both stay in range. -/
+theorem C02_counters : 0 ≤ q.halfmoves ∧ q.halfmoves ≤ p.halfmoves + 1 ∧ 1 ≤ q.fullmoves ∧
+    q.fullmoves ≤ p.fullmoves + 1 := by
+  have v := (valid_iff _).mp (C02_spec_valid p m q u hV hs hL h)
+  have v0 := (valid_iff _).mp (valid_unpack hV).2.1
+  have he := C02_makemove_eq p m q u hV hs hL h
+  obtain ⟨b1, b2⟩ := counters_apply (abs p) (decodeMove p m) v0.half
+  rw [← he] at b1 b2
+  exact ⟨v.half, b1, v.full, b2⟩
+
+end clauses
+
+/-- V.8: the stored key is the recomputed key — this is `C04a_predict` / `C04a_valid` (Rawr/Props/C04.lean). -/
+theorem C02_hash (p : Position) (m : Mv) (q : Position) (hV : ValidPos p = true) (hs : MoveShape p m = true)
+    (h : p.makemove m true = some q) : q.hash = q.calculateHash :=
+  (move_preserves (keyHyps_of_valid hV) hs (valid_unpack hV).2.2.2.2.2.2 h).2
+
+/-- **the result is again in the domain V**, as long as the counters do not leave the `i32` range. -/
+theorem C02_valid_preserved (p : Position) (m : Mv) (q : Position) (hV : ValidPos p = true)
+    (hs : MoveShape p m = true) (hL : decodeMove p m ∈ Spec.legalMoves (abs p))
+    (h : p.makemove m true = some q)
+    (hh : p.halfmoves + 1 < 2147483648) (hf : p.fullmoves + 1 < 2147483648) : ValidPos q = true :=
+  (validPos_step hV (shape2_of_legal hV hs hL) hL h hh hf).1
+
+/-- a null move played when not in check leads to a valid position denoting the passed position. -/
+theorem C02_null_valid (p : Position) (hV : ValidPos p = true)
+    (hc : inCheck (abs p).board (abs p).whiteToMove = false) :
+    ValidPos p.makenull = true ∧ abs p.makenull = specPass (abs p) :=
+  ⟨(validPos_null hV hc).1, abs_makenull hV⟩
+
+/-! ## (5) sequences -/
+
+/-- `C02Path n p a r b`: `n` plies lead the engine from `p` to `r` and the specification from `a` to `b`.
+A ply is a move of the generated shape that is legal by the rules (the specification plays
+`decodeMove p m`), made with key update, or a null move when the side to move is not in check (the
+specification passes the turn). -/
+inductive C02Path : Nat → Position → APos → Position → APos → Prop
+  | nil (p : Position) (a : APos) : C02Path 0 p a p a
+  | move {n : Nat} {p q r : Position} {a b : APos} (m : Mv) :
+      MoveShape p m = true → decodeMove p m ∈ Spec.legalMoves a → p.makemove m true = some q →
+      C02Path n q (Spec.apply a (decodeMove p m)) r b → C02Path (n + 1) p a r b
+  | null {n : Nat} {p r : Position} {a b : APos} :
+      inCheck a.board a.whiteToMove = false →
+      C02Path n p.makenull (specPass a) r b → C02Path (n + 1) p a r b
+
+/-- along any sequence of shaped legal moves and null moves from a valid position, the engine position
+denotes exactly the position the rules prescribe, and stays in the domain (counters within `i32`). -/
+theorem C02_sequence {n : Nat} {p r : Position} {a b : APos} (path : C02Path n p a r b)
+    (hV : ValidPos p = true) (ha : abs p = a)
+    (hh : p.halfmoves + n < 2147483648) (hf : p.fullmoves + n < 2147483648) :
+    abs r = b ∧ ValidPos r = true := by
+  induction path with
+  | nil p a => exact ⟨ha, hV⟩
+  | @move n p q r a b m hs hL hq _ ih =>
+    subst ha
+    have hs2 := shape2_of_legal hV hs hL
+    obtain ⟨hVq, b1, b2⟩ := validPos_step hV hs2 hL hq (by omega) (by omega)
+    exact ih hVq (abs_eq_apply hV hs2 hq) (by omega) (by omega)
+  | @null n p r a b hc _ ih =>
+    subst ha
+    obtain ⟨hVq, b1, b2⟩ := validPos_null hV hc
+    have h0 : 0 ≤ p.halfmoves := ((valid_iff _).mp (valid_unpack hV).2.1).half
+    exact ih hVq (abs_makenull hV) (by rw [b1]; omega) (by rw [b2]; omega)
+
 /-! ## non-vacuity -/
 
 /-- a position given by its (mover-relative) boards, with castle files and side to move; key recomputed. -/
@@ -159,11 +306,51 @@ example : ((exRights.makemove ⟨4, 12, 6⟩ true).map fun q => ((abs q).wK, (ab
 -- null move after 1. e4: the en-passant target disappears
 example : ValidPos exEp = true ∧ (abs exEp).ep = some 19 ∧ (abs exEp.makenull).ep = none := by decide +kernel
 
+
+-- (4): 1. e4 is legal by the rules in the start position; the result is valid
+example : ValidPos Gen.startpos = true ∧ MoveShape Gen.startpos ⟨12, 28, 6⟩ = true ∧
+    decodeMove Gen.startpos ⟨12, 28, 6⟩ ∈ Spec.legalMoves (abs Gen.startpos) := by decide +kernel
+-- castling, en passant and the promotion-capture above are legal by the rules, too
+example : decodeMove exK ⟨5, 6, 6⟩ ∈ Spec.legalMoves (abs exK) ∧
+    decodeMove exQ ⟨4, 3, 6⟩ ∈ Spec.legalMoves (abs exQ) ∧
+    decodeMove exEp ⟨36, 43, 6⟩ ∈ Spec.legalMoves (abs exEp) ∧
+    decodeMove exPromo ⟨49, 56, 4⟩ ∈ Spec.legalMoves (abs exPromo) := by decide +kernel
+
+-- (5): 1. e4, (null), 2. d4 from the start position
+def seqQ1 : Position := (Gen.startpos.makemove ⟨12, 28, 6⟩ true).getD default
+def seqQ2 : Position := seqQ1.makenull
+def seqQ3 : Position := (seqQ2.makemove ⟨11, 27, 6⟩ true).getD default
+def seqA1 : APos := Spec.apply (abs Gen.startpos) (decodeMove Gen.startpos ⟨12, 28, 6⟩)
+def seqA3 : APos := Spec.apply (specPass seqA1) (decodeMove seqQ2 ⟨11, 27, 6⟩)
+
+theorem seqPath : C02Path 3 Gen.startpos (abs Gen.startpos) seqQ3 seqA3 :=
+  .move ⟨12, 28, 6⟩ (by decide +kernel) (by decide +kernel) (by decide +kernel)
+    (.null (by decide +kernel)
+      (.move ⟨11, 27, 6⟩ (by decide +kernel) (by decide +kernel) (by decide +kernel) (.nil _ _)))
+
+example : abs seqQ3 = seqA3 ∧ ValidPos seqQ3 = true :=
+  C02_sequence seqPath (by decide +kernel) rfl (by decide +kernel) (by decide +kernel)
+
 #print axioms C02_makemove_refines
 #print axioms C02_shape_alone_insufficient
 #print axioms C02_makemove_total
 #print axioms C02_update_hash_irrelevant
 #print axioms C02_no_update_keeps_hash
 #print axioms C02_null
+#print axioms C02_shape2_of_legal
+#print axioms C02_makemove_eq
+#print axioms C02_consistent
+#print axioms C02_spec_valid_preserved
+#print axioms C02_spec_valid
+#print axioms C02_mover_not_in_check
+#print axioms C02_one_king_each
+#print axioms C02_no_back_rank_pawns
+#print axioms C02_rights_backed
+#print axioms C02_ep_target
+#print axioms C02_counters
+#print axioms C02_hash
+#print axioms C02_valid_preserved
+#print axioms C02_null_valid
+#print axioms C02_sequence
 
 end Rawr
